@@ -151,6 +151,9 @@ DEVS = [("FF_Gsmall", "unsorted", "C01_Inv", "m01: residues not sorted by residu
         ("FF_Msmall", "versioninkey", "C01_Inv", "removed-node-key-equals-version (repaired): write-back tests the version number as an atom"),
         ("FF_Msmall", "modanyres", "C01_Inv", "a modification touching another residue"),
         ("FF_Msmall", "modanyname", "C01_Inv", "seed-C01-2: a modification applied to a residue that is not a protein residue")]
+# seed3-C01-2 (residue-node attributes written into the atoms) has no flag of its own: node attributes are not part of the abstract
+# input; it is caught by PBase (atoms keep the block's residue name, charge, ...) on blocks whose atoms are named differently from
+# the residue nodes (force fields 3 and 5 of instance G / X) and on the node attributes the harness draws (ffmap_util.extra_attrs)
 REACH = [("FF_X4", "Reach_Frag2"), ("FF_Msmall", "Reach_Removed"), ("FF_Msmall", "Reach_Mod")]
 
 
